@@ -7,6 +7,7 @@ import (
 	"sort"
 	"strconv"
 	"strings"
+	"sync"
 )
 
 // Violation is a property violation found by an oracle.
@@ -28,22 +29,23 @@ func (v *Violation) Class() string { return v.Prop + "/" + v.Clause + "/" + v.Si
 
 // R is the context of one simulated run.
 type R struct {
+	mu   sync.Mutex // Event, Decision, Fault, Probe may be called from goroutines of the system under test
 	T    *Tape
 	Prop string // property id of the run
 
-	trace     []string
-	traceOn   bool
-	hash      uint64 // running hash of the canonical event log (decisions + observations)
-	nEvents   int
+	trace      []string
+	traceOn    bool
+	hash       uint64 // running hash of the canonical event log (decisions + observations)
+	nEvents    int
 	nDecisions int
-	Faults    map[string]int // fault kind -> times fired in this run
-	Probes    map[string]int // "rare condition reached" probes
-	Steps     int            // scheduler steps / simulated operations
-	SimTimeNs int64          // simulated time covered
-	Nontriv   bool           // run is non-trivial by the property's rule
-	Shape     string         // optional: shape key used for distinctness in addition to the hash
-	Known     []*Violation   // known findings hit by this run (run continued)
-	IsKnown   func(v *Violation) bool
+	Faults     map[string]int // fault kind -> times fired in this run
+	Probes     map[string]int // "rare condition reached" probes
+	Steps      int            // scheduler steps / simulated operations
+	SimTimeNs  int64          // simulated time covered
+	Nontriv    bool           // run is non-trivial by the property's rule
+	Shape      string         // optional: shape key used for distinctness in addition to the hash
+	Known      []*Violation   // known findings hit by this run (run continued)
+	IsKnown    func(v *Violation) bool
 }
 
 // NewR creates a run context.
@@ -54,6 +56,8 @@ func NewR(t *Tape, trace bool) *R {
 // Event appends a canonical event to the log. It never draws from the tape or reads a clock.
 func (r *R) Event(format string, a ...any) {
 	s := fmt.Sprintf(format, a...)
+	r.mu.Lock()
+	defer r.mu.Unlock()
 	h := fnv.New64a()
 	var b [8]byte
 	for i := 0; i < 8; i++ {
@@ -73,6 +77,8 @@ func (r *R) Event(format string, a ...any) {
 
 // Note adds a line to the human-readable trace only (not hashed).
 func (r *R) Note(format string, a ...any) {
+	r.mu.Lock()
+	defer r.mu.Unlock()
 	if r.traceOn {
 		r.trace = append(r.trace, "# "+fmt.Sprintf(format, a...))
 	}
@@ -85,10 +91,18 @@ func (r *R) Hash() uint64 { return r.hash }
 func (r *R) Trace() []string { return r.trace }
 
 // Fault counts a fault that actually fired.
-func (r *R) Fault(kind string) { r.Faults[kind]++ }
+func (r *R) Fault(kind string) {
+	r.mu.Lock()
+	r.Faults[kind]++
+	r.mu.Unlock()
+}
 
 // Probe counts a reached condition.
-func (r *R) Probe(name string) { r.Probes[name]++ }
+func (r *R) Probe(name string) {
+	r.mu.Lock()
+	r.Probes[name]++
+	r.mu.Unlock()
+}
 
 // Report decides what to do with a violation found mid-run: if it is listed as a known finding it
 // is recorded and nil is returned (the run may continue); otherwise the violation is returned and
@@ -145,6 +159,8 @@ var traceMax = func() int {
 
 // Decision records a scheduling decision in the canonical log (hashed; traced up to a bound).
 func (r *R) Decision(actor, what string) {
+	r.mu.Lock()
+	defer r.mu.Unlock()
 	h := r.hash
 	for i := 0; i < len(actor); i++ {
 		h = (h ^ uint64(actor[i])) * 1099511628211
